@@ -1720,13 +1720,13 @@ Proof.
   intros f d H.
   destruct f as [|b0 f]; [dsc H|].
   destruct b0 as [|p|p]; try dsc H.
-  do 6 (destruct p as [p|p|]; try dsc H).
+  do 7 (destruct p as [p|p|]; try dsc H).
   destruct f as [|b1 f]; [dsc H|].
   destruct b1 as [|p|p]; try dsc H.
-  do 6 (destruct p as [p|p|]; try dsc H).
+  do 7 (destruct p as [p|p|]; try dsc H).
   destruct f as [|b2 f]; [dsc H|].
   destruct b2 as [|p|p]; try dsc H.
-  do 6 (destruct p as [p|p|]; try dsc H).
+  do 7 (destruct p as [p|p|]; try dsc H).
   destruct f as [|ver r]; [dsc H|].
   change (decode (67 :: 68 :: 70 :: ver :: r)) with
     (if negb ((ver =? 1) || (ver =? 2) || (ver =? 5)) then None else
@@ -1755,4 +1755,92 @@ Proof.
   destruct (p_list ver 11 (p_var ver) r3) as [[vars r4]|] eqn:E4; [|discriminate].
   inversion H; subst d. exists ver, r, nr, r1, dims, r2, gatts, r3, vars, r4.
   repeat split; try assumption; try reflexivity. lia.
+Qed.
+
+Lemma fold_max_le : forall A (g : A -> Z) l m, fold_right Z.max 0 (map g l) <= m -> Forall (fun x => g x <= m) l.
+Proof.
+  induction l as [|x l IH]; intros m H; [constructor|]. cbn [map fold_right] in H.
+  constructor; [lia | apply IH; lia].
+Qed.
+
+Lemma Zlen_filter_map : forall A B (g : A -> B) (p : B -> bool) l,
+  Zlen (filter p (map g l)) = Zlen (filter (fun x => p (g x)) l).
+Proof.
+  induction l as [|x l IH]; [reflexivity|]. cbn [map filter]. destruct (p (g x)); [rewrite !Zlen_cons; now rewrite IH | exact IH].
+Qed.
+
+Lemma att_ok_Q : forall mm a, att_ok a = true -> att_req a <= mm -> attQ mm a.
+Proof.
+  intros mm a H Hr. unfold att_ok, name_ok in H. unfold att_req in Hr. unfold attQ.
+  apply andb_prop in H. destruct H as [H H3]. apply andb_prop in H. destruct H as [H1 H2]. lia.
+Qed.
+
+Lemma atts_ok_Q : forall mm l, forallb att_ok l = true -> fold_right Z.max 0 (map att_req l) <= mm -> Forall (attQ mm) l.
+Proof.
+  intros mm l H Hr. apply fold_max_le in Hr. rewrite forallb_forall in H. rewrite Forall_forall in *.
+  intros a Ha. apply att_ok_Q; [now apply H | now apply Hr].
+Qed.
+
+(* everything the proof needs, extracted from the executable predicate *)
+Lemma c04_valid_inv : forall mm d, c04_valid mm d = true ->
+  let h := dc_hdr d in
+  let dims := h_dims h in
+  h_numrecs h <= I64_MAX /\
+  Zlen dims <= NC_MAX_INT - 63 /\ Zlen (h_gatts h) <= NC_MAX_INT - 63 /\ Zlen (h_vars h) <= NC_MAX_INT - 63 /\
+  Forall (dimQ mm) dims /\ Forall (fun x => 0 <= d_size x) dims /\
+  Zlen (filter (fun x => d_size x =? 0) dims) <= 1 /\
+  Forall (attQ mm) (h_gatts h) /\
+  Forall (varQ mm (Zlen dims)) (h_vars h) /\
+  list_req (Zlen dims) <= mm /\ list_req (Zlen (h_gatts h)) <= mm /\ list_req (Zlen (h_vars h)) <= mm /\
+  SZ_NC_VAR <= mm /\
+  layQ dims (hdr_len h) (h_vars h) /\ check_vlens h = NC_NOERR /\ dc_len d = hdr_len h.
+Proof.
+  intros mm d H. cbv zeta. unfold c04_valid in H.
+  set (h := dc_hdr d) in *. set (dims := h_dims h) in *.
+  repeat rewrite andb_true_iff in H.
+  destruct H as [[[[[[[[[[[[[[H1 H2] H3] H4] H5] H6] H7] H8] H9] H10] H11] H12] H13] H14] H15].
+  assert (Hreq : hdr_req h <= mm) by lia. unfold hdr_req in Hreq. fold dims in Hreq.
+  assert (Hd : Forall (dimQ mm) dims).
+  { assert (Hr : fold_right Z.max 0 (map (fun d0 => Zlen (d_name d0) + 1) dims) <= mm) by lia.
+    apply fold_max_le in Hr. rewrite forallb_forall in H5. rewrite Forall_forall in *. intros x Hx.
+    specialize (H5 x Hx). specialize (Hr x Hx). unfold name_ok in H5. unfold dimQ.
+    repeat rewrite andb_true_iff in H5. lia. }
+  assert (Hdn : Forall (fun x => 0 <= d_size x) dims).
+  { rewrite Forall_forall in *. intros x Hx. specialize (Hd x Hx). unfold dimQ in Hd. lia. }
+  assert (Hvars : Forall (fun v => varQ mm (Zlen dims) v /\ pvQ dims v) (h_vars h)).
+  { assert (Hr : fold_right Z.max 0 (map var_req (h_vars h)) <= mm) by lia.
+    apply fold_max_le in Hr. rewrite forallb_forall in H8. rewrite Forall_forall in *. intros v Hv.
+    specialize (H8 v Hv). specialize (Hr v Hv). unfold name_ok in H8. unfold var_req in Hr.
+    repeat rewrite andb_true_iff in H8.
+    destruct H8 as [[[[[[[[[[V1 V2] V3] V4] V5] V6] V7] V8] V9] V10] V11].
+    split.
+    - unfold varQ. repeat split; try lia.
+      + rewrite forallb_forall in V5. apply Forall_forall. intros i Hi. specialize (V5 i Hi). fold dims in V5. lia.
+      + apply atts_ok_Q; [exact V4 | lia].
+    - unfold pvQ. repeat split; try lia.
+      + now apply negb_true_iff in V6.
+      + pose proof (valid_type_xlen _ _ V7). lia.
+      + pose proof (valid_type_xlen _ _ V7). lia.
+      + exact V8. }
+  assert (Hvq : Forall (varQ mm (Zlen dims)) (h_vars h)) by (eapply Forall_impl; [|exact Hvars]; intros v Hv; tauto).
+  assert (Hpq : Forall (pvQ dims) (h_vars h)) by (eapply Forall_impl; [|exact Hvars]; intros v Hv; tauto).
+  assert (Hlen : dc_len d = hdr_len h) by lia.
+  repeat split; try lia; try assumption.
+  - apply atts_ok_Q; [exact H7 | lia].
+  - unfold SZ_NC_VAR in *. lia.
+  - (* layQ *)
+    unfold layQ. split; [exact Hpq|]. rewrite <- Hlen.
+    change (filter (Proofs_Reader.isr dims) (h_vars h)) with (filter (is_recvar dims) (h_vars h)).
+    change (map (Proofs_Reader.Lv dims)) with (map (var_len dims)).
+    split; [lia|]. split; [lia|].
+    change (map (Proofs_Reader.bl dims)) with (map (fun v : var => (v_begin v, var_len dims v))).
+    change (filter (Proofs_Reader.nonrec dims) (h_vars h)) with (filter (fun v => negb (is_recvar dims v)) (h_vars h)).
+    destruct (h_vars h) as [|v0 vs0] eqn:Ev.
+    + cbn. exists (dc_len d). split; [reflexivity | left; reflexivity].
+    + rewrite <- Ev in *.
+      destruct (order_ok (dc_len d) (map (fun v : var => (v_begin v, var_len dims v)) (filter (fun v : var => negb (is_recvar dims v)) (h_vars h)))) as [ef|]; [|discriminate].
+      exists ef. split; [reflexivity|].
+      destruct (filter (is_recvar dims) (h_vars h)) as [|fr frs] eqn:Er; [left; reflexivity|]. right.
+      destruct (order_ok ef (map (fun v : var => (v_begin v, var_len dims v)) (fr :: frs))) as [er|]; [|discriminate].
+      exists er. reflexivity.
 Qed.
